@@ -271,8 +271,8 @@ def _pdb_structural_reasons(model):
         reasons.add('long_atom_name')
     rs = model['residues']
     for a, b in zip(rs[:-1], rs[1:]):
-        if a['chain'] == b['chain'] and a['resSeq'] == b['resSeq']:
-            reasons.add('repeated_resSeq')
+        if a['chain'] == b['chain'] and a['resSeq'] == b['resSeq'] and a['name'] == b['name']:
+            reasons.add('repeated_resSeq')      # (with different names the reader starts a new residue: no limit)
     if any(c is not None and len(c) != 1 for c in chain_ids):
         reasons.add('chain_id_width')
     seen = set()
@@ -321,8 +321,8 @@ def carrier_limits(carrier, model):
             structural = True
         rs = model['residues']
         for a, b in zip(rs[:-1], rs[1:]):
-            if a['chain'] == b['chain'] and a['resSeq'] == b['resSeq']:
-                structural = True                  # residues are told apart by their number in the file
+            if a['chain'] == b['chain'] and a['resSeq'] == b['resSeq'] and a['name'] == b['name']:
+                structural = True                  # residues are told apart by their number (and name) in the file
         if any(c is not None and len(c) != 1 for c in chain_ids):
             structural = True
         seen = set()
